@@ -49,6 +49,14 @@ fn run(r: &mut Run) -> Result<(), MachineryError> {
             cx.set_input(&format!("U+{:04X}", u));
         }
         cx.check("C10-char-width", ok, &d, &|| json!({"display_width": w, "reference": rw, "utf8_len": s.len(), "is_control": c.is_control()}));
+        // after a run of printable ASCII (longer than a machine word: chunked fast paths)
+        let s4 = format!("abcdefg{c}hijklmnopq");
+        if let Some(w4) = cx.guard(|| display_width(&s4)) {
+            if w4 != 17 + rw {
+                cx.set_input(&s4);
+            }
+            cx.check("C10-char-width-after-ascii-run", w4 == 17 + rw, &d, &|| json!({"string": s4, "display_width": w4, "expected": 17 + rw}));
+        }
         let s2 = format!("a\x1b[1m{c}\x1b]8;;u\x07b");
         if let Some(w2) = cx.guard(|| display_width(&s2)) {
             if w2 != 2 + rw {
@@ -74,8 +82,8 @@ fn run(r: &mut Run) -> Result<(), MachineryError> {
     })?;
 
     // (ii) well-formed strings
-    let alpha = [L, W, CM, E2, EM, TAB, SP, CSI, CSI2, OSB, OSS, OSBS, OSCE, BSL];
-    let n = t.pick(5, 7);
+    let alpha = [L, W, CM, E2, EM, TAB, SP, CSI, CSI2, OSB, OSS, OSBS, OSCE, BSL, CSIL, CSIC];
+    let n = t.pick(4, 6);
     let space = Space { name: "C10/wellformed-strings".into(), menu: menu(&alpha), max_len: n, desc: format!("strings of length <= {}: display_width == sum of reference widths of the visible characters; additive over every split of ESC-free strings; unchanged by inserting each of {:?} at every symbol boundary; <= byte length", n, SEQS) };
     r.space(space, |seq, cx| {
         let syms: Vec<String> = seq.iter().map(|&k| build(&[k], &alpha)).collect();
